@@ -29,3 +29,6 @@ func VerifNewTarget(dial func(ctx context.Context, network, addr string) (net.Co
 		pool:           pool.New(pool.Config{MaxKeys: 5000, MaxConnsPerKey: 5, MaxConnLifetimeSec: 150, StaleKeyLifetimeSec: 300}),
 	}
 }
+
+// VerifSetLimits installs a limits group (the production Init reads it from configuration).
+func VerifSetLimits(rt *Target, g *limits.Group) { rt.limits = g }
